@@ -1,5 +1,5 @@
 (** C11 — pinned statements (retransmit first, original id and content, order).  Only [Theorem .. exact ..]. *)
-From Rumqtt Require Import Client.Run4 Client.Inv4 Client.Flow4 Client.Findings4 Client.Loop Client.LoopProofs.
+From Rumqtt Require Import Client.Run4 Client.Inv4 Client.Flow4 Client.Findings4 Client.Loop Client.LoopProofs Client.Order4.
 
 Theorem c11_first : forall l, Inv (st l) -> connected l = true ->
   exists l1 l2 reqs,
@@ -27,3 +27,8 @@ Theorem c11_f18_witness :
   k18 2 false f18_history = true /\ k19 f18_history = false /\ contract (init 2 false) f18_history = true
   /\ clean_after step 2 f18_history = Some [RPublish (mkPub Q1 1 3 3); RPublish (mkPub Q1 2 2 2)].
 Proof. exact f18_witness. Qed.
+
+Theorem c11_order_v4 : forall max manual h s L, 1 <= max -> max <= 65535 ->
+  Client.Order4.orun (init max manual) [] h = Some (s, L) ->
+  exists s', clean s = Ok (s', map RPublish L ++ parked s).
+Proof. exact Client.Order4.clean_in_send_order. Qed.
